@@ -75,7 +75,14 @@ def generate(seed, tier, index):
     bad = {w["start"] + w["timeout"] for w in waits if w["timeout"]}
     evs = [e for e in evs if e["t"] not in bad]
     evs.sort(key=lambda e: (e["t"], e["n"]))
-    return {"mode": mode, "waits": waits, "events": evs, "tie_shuffle": rng.random() < 0.5, "seed": rng.randrange(1 << 30),
+    late_def = None
+    if rng.random() < 0.25:
+        # the device is unknown to the client when the waits start: its first definition arrives in the middle of the timeline
+        # (its ValueUpdate / StateUpdate head events are events like any other and may be the first match)
+        t = rng.randrange(1, int(4.0 / GRID)) * GRID
+        if t not in bad:
+            late_def = {"t": t, "state": rng.choice(STATES), "e1": rng.choice(["v0", "MATCH", "u0a"]), "e2": rng.choice(["v0", "MATCH", "u0b"])}
+    return {"mode": mode, "waits": waits, "events": evs, "late_def": late_def, "tie_shuffle": rng.random() < 0.5, "seed": rng.randrange(1 << 30),
             "frag": rng.choice(["coalesce", "whole", "fixed:7"])}
 
 
@@ -97,7 +104,16 @@ def _timeline(scen):
     val = {"E1": "v0", "E2": "v0"}
     state = "Idle"
     out = []
-    for e in scen["events"]:
+    ld = scen.get("late_def")
+    events = list(scen["events"])
+    if ld:
+        events = [e for e in events if e["t"] > ld["t"]]  # updates for a device the client does not know yet are ignored anyway
+        xml = (f'<defTextVector device="D" name="V" state="{ld["state"]}" perm="rw"><defText name="E1">{ld["e1"]}</defText>'
+               f'<defText name="E2">{ld["e2"]}</defText></defTextVector>\n')
+        out.append((ld["t"], xml, [("value", "E1", None, ld["e1"]), ("value", "E2", None, ld["e2"]), ("state", None, None, ld["state"])]))
+        val = {"E1": ld["e1"], "E2": ld["e2"]}
+        state = ld["state"]
+    for e in events:
         derived = []
         if e["kind"] == "value":
             new = "MATCH" if e["match"] else f"u{e['n']}"
@@ -138,7 +154,8 @@ def execute(scen):
         loop = sim.loop
         if scen["mode"] == "direct":
             client = RecClient(sim)
-            sim.do(client.process_message, IndiMessage.from_string(DEF))
+            if not scen.get("late_def"):
+                sim.do(client.process_message, IndiMessage.from_string(DEF))
             # same-instant messages are dispatched as one batch, in timeline order (like several messages in one read):
             # they carry absolute states, so permuting them would change what they mean
             batches = {}
@@ -166,7 +183,8 @@ def execute(scen):
             sim.spawn(client.start())
             sim.settle()
             ctl = peers[0]
-            sim.do(ctl.send, DEF)
+            if not scen.get("late_def"):
+                sim.do(ctl.send, DEF)
             sim.settle()
             base_len = len(ctl.received)
             batches = {}
